@@ -309,6 +309,13 @@ C02Checks(e) ==
   IN IF e.p # 0 THEN Chk("C02.year.panic", y, FALSE)
      ELSE
        Chk("C02.table.shape", y, Len(T) = 15 /\ Len(e.terms) = 31 /\ Len(e.nm) = 15)
+       \* the reported leap month and month count are those of the table; the months this table shares with next year's
+       \* (its last ones) carry the same year, number and length there
+       + (LET Y == InYear(T, y)
+              TN == T4(e.tn)
+          IN Chk("C02.leap.accessor-matches-table", << y, e.leap, e.inyear >>, e.leap = LeapOf(Y) /\ e.inyear = Len(Y))
+             + Chk("C02.table.tail-agrees-with-next-year", << y, [i \in 12..15 |-> << MY(T[i]), MM(T[i]), MJ(T[i]) >>] >>,
+                   \A i \in 1..Len(T), j \in 1..Len(TN) : MJ(T[i]) = MJ(TN[j]) => T[i] = TN[j]))
        \* every month begins on the UTC+8 civil day that contains the true new moon
        + SumN(Len(T), LAMBDA i :
            LET first == MJ(T[i])
